@@ -156,7 +156,7 @@ def renderBlk (b : Blk) : String :=
     | some (w, ev) => toString w ++ "." ++ renderTEv ev
   s!"P{if b.persistent then 1 else 0}:I{if d.inited then 1 else 0}:v={d.value.render}:o={d.out.render}"
     ++ s!":s={if d.fstate.isEmpty then "-" else d.fstate}:t={t}:d={Data.render d.sdata}"
-    ++ s!":e={if d.entered.isEmpty then "-" else ",".intercalate d.entered}"
+    ++ s!":e={if d.entered.isEmpty then "-" else ",".intercalate d.entered}:r={if b.restored then 1 else 0}"
 
 def renderPhase : Phase → String
   | .idle => "idle" | .running => "running" | .aborted => "aborted" | .failed => "failed" | .stopped => "stopped"
@@ -172,15 +172,35 @@ def renderCirc (c : Circ) : String :=
   s!"ph={renderPhase c.phase} ts={renderOptNat c.ts} B "
     ++ " ".intercalate (c.blocks.map renderBlk) ++ " S " ++ renderStore c.store
 
+/-- `-` or `L<dest>.<etrue>.<efalse>` -/
+def parseLink (s : String) : Option (Option Link) :=
+  if s == "-" then some none else
+  match s.toList with
+  | 'L' :: r =>
+    match (String.ofList r).splitOn "." with
+    | [d, t, f] => do pure (some { dest := ← d.toNat?, etrue := ← parseBit t, efalse := ← parseBit f })
+    | _ => none
+  | _ => none
+
+def hasLink (c : Circ) (i : Nat) : Bool :=
+  match c.blocks[i]? with
+  | some b => b.link.isSome
+  | none => false
+
+/-- circuits without links start with `Circ.start`, circuits with links with `Circ.startL` (mode ok only) -/
+def startAny (c : Circ) (cal : Val → Option Bool) (now : Nat) (m : StartMode) : Option Circ :=
+  if c.blocks.all (·.link.isNone) then some (c.start cal now m)
+  else if m == .ok then some (c.startL cal now) else none
+
 def handle (s : DState) : List String → DState × String
   | ["reset"] => ({ circ := { blocks := [], store := [] } }, "ok")
-  | "blk" :: k :: p :: sy :: ex :: kind =>
-    match hexDecode k, parseBit p, parseBit sy, parseOptInt ex, parseKind kind with
-    | some k, some p, some sy, some ex, some kind =>
+  | "blk" :: k :: p :: sy :: ex :: lk :: kind =>
+    match hexDecode k, parseBit p, parseBit sy, parseOptInt ex, parseLink lk, parseKind kind with
+    | some k, some p, some sy, some ex, some lk, some kind =>
       if s.circ.phase != .idle then (s, "bad-op") else
       ({ circ := { s.circ with blocks := s.circ.blocks ++
-          [{ key := k, kind := kind, persistent := p, sync := sy, expiration := ex }] } }, "ok")
-    | _, _, _, _, _ => (s, "bad-op")
+          [{ key := k, kind := kind, persistent := p, sync := sy, expiration := ex, link := lk }] } }, "ok")
+    | _, _, _, _, _, _ => (s, "bad-op")
   | ["store", st] =>
     match parseStore st with
     | some st => if s.circ.phase != .idle then (s, "bad-op") else
@@ -192,8 +212,9 @@ def handle (s : DState) : List String → DState × String
     match now.toNat?, m, parseCal cal with
     | some now, some m, some cal =>
       if s.circ.phase != .idle then (s, "bad-op") else
-      let c := s.circ.start cal now m
-      ({ circ := c }, renderCirc c)
+      match startAny s.circ cal now m with
+      | some c => ({ circ := c }, renderCirc c)
+      | none => (s, "err not-modelled")
     | _, _, _ => (s, "bad-op")
   | ["startstop", now, mode, cal, tstop] =>
     let m : Option StartMode := match mode with
@@ -201,12 +222,14 @@ def handle (s : DState) : List String → DState × String
     match now.toNat?, m, parseCal cal, tstop.toNat? with
     | some now, some m, some cal, some tstop =>
       if s.circ.phase != .idle then (s, "bad-op") else
-      let c := (s.circ.start cal now m).stop tstop
-      ({ circ := c }, renderCirc c)
+      match startAny s.circ cal now m with
+      | some c0 => let c := c0.stop tstop; ({ circ := c }, renderCirc c)
+      | none => (s, "err not-modelled")
     | _, _, _, _ => (s, "bad-op")
   | ["ev", i, name, arg, cal] =>
     match i.toNat?, parseEv name arg, parseCal cal with
     | some i, some ev, some cal =>
+      if hasLink s.circ i then (s, "err not-modelled") else      -- (an output change would send an event)
       match s.circ.event cal i ev with
       | some (c, r) => ({ circ := c }, renderRes r ++ " " ++ renderCirc c)
       | none => (s, "err not-possible")
